@@ -1,6 +1,7 @@
 package rules
 
 import (
+	"strconv"
 	"fmt"
 	"go/token"
 	"sort"
@@ -77,7 +78,9 @@ type symEval struct {
 	field func(base, field string) string // the value of base.field ("" = base.field)
 	elem  func(slice string) string  // the generic element of a slice ("" = ELEM(slice))
 	norm  func(e string) string
-	steps int
+	// nonEmpty: the collection a loop ranges over has at least one element (the zero-iteration path is not taken)
+	nonEmpty func(coll string) bool
+	steps    int
 }
 
 func (se *symEval) n(e string) string {
@@ -130,7 +133,7 @@ func (se *symEval) run(f *ssa.Function, args []sval, free []sval, st0 *sstate, d
 		if se.steps > 40000 {
 			return []spathResult{{ret: []sval{sv("UNK:budget")}, st: st0}}
 		}
-		isLoopHdr := strings.HasPrefix(cur.b.Comment, "rangeindex.loop")
+		isLoopHdr := strings.HasPrefix(cur.b.Comment, "rangeindex.loop") || strings.HasPrefix(cur.b.Comment, "rangeiter.loop")
 		if cur.visit[cur.b] >= 2 {
 			out = append(out, spathResult{ret: []sval{sv("UNK:loop")}, st: cur.st})
 			continue
@@ -215,6 +218,11 @@ func (se *symEval) run(f *ssa.Function, args []sval, free []sval, st0 *sstate, d
 				cv := se.truthOf(se.val(t.Cond, st))
 				if isLoopHdr {
 					cv = 0 // the list may be empty or not
+					if se.nonEmpty != nil {
+						if coll := loopCollection(cur.b); coll != nil && se.nonEmpty(se.val(coll, st).e) {
+							cv = 1
+						}
+					}
 				}
 				if cv >= 0 {
 					stack = append(stack, state{b: cur.b.Succs[0], pred: cur.b, st: st.clone(), visit: visit})
@@ -309,6 +317,12 @@ func (se *symEval) instr(x ssa.Value, st *sstate) sval {
 			return sval{e: "TUPLE", tuple: []sval{sv(e), sv("FOUND(" + m.e + "," + k.e + ")")}}
 		}
 		return sv(e)
+	case *ssa.Range:
+		return sv("ITER(" + se.val(i.X, st).e + ")")
+	case *ssa.Next:
+		it := se.val(i.Iter, st).e
+		coll := strings.TrimSuffix(strings.TrimPrefix(it, "ITER("), ")")
+		return sval{e: "TUPLE", tuple: []sval{sv("MORE(" + coll + ")"), sv("KEY(" + coll + ")"), se.load("ELEM("+coll+")", st)}}
 	case *ssa.Extract:
 		t := se.val(i.Tuple, st)
 		if t.e == "TUPLE" && i.Index < len(t.tuple) {
@@ -349,6 +363,31 @@ func (se *symEval) instr(x ssa.Value, st *sstate) sval {
 		op := map[token.Token]string{token.ADD: "ADD", token.SUB: "SUB", token.EQL: "EQ", token.NEQ: "NE", token.LSS: "LT", token.LEQ: "LE", token.GTR: "GT", token.GEQ: "GE"}[i.Op]
 		if op == "" {
 			return sv("UNK:binop")
+		}
+		if x, okx := constInt(a.e); okx {
+			if y, oky := constInt(b.e); oky {
+				switch op {
+				case "LT":
+					return sv(fmt.Sprintf("CONST:%v", x < y))
+				case "LE":
+					return sv(fmt.Sprintf("CONST:%v", x <= y))
+				case "GT":
+					return sv(fmt.Sprintf("CONST:%v", x > y))
+				case "GE":
+					return sv(fmt.Sprintf("CONST:%v", x >= y))
+				case "ADD":
+					return sv(fmt.Sprintf("CONST:%d", x+y))
+				case "SUB":
+					return sv(fmt.Sprintf("CONST:%d", x-y))
+				}
+			}
+		}
+		if op == "EQ" || op == "NE" {
+			// comparison of two conditions whose truth is known (verdict == stop)
+			isBool := func(v sval) bool { return v.e == "CONST:true" || v.e == "CONST:false" }
+			if ta, tb := se.truthOf(a), se.truthOf(b); ta != 0 && tb != 0 && (isBool(a) || isBool(b)) {
+				return sv(fmt.Sprintf("CONST:%v", (ta == tb) == (op == "EQ")))
+			}
 		}
 		if strings.HasPrefix(a.e, "CONST:") && strings.HasPrefix(b.e, "CONST:") && (op == "EQ" || op == "NE") {
 			if (a.e == b.e) == (op == "EQ") {
@@ -489,4 +528,35 @@ func (se *symEval) outcomes(f *ssa.Function, args []sval) []soutcome {
 	}
 	sort.Slice(out, func(i, j int) bool { return out[i].String() < out[j].String() })
 	return out
+}
+
+func constInt(e string) (int64, bool) {
+	if !strings.HasPrefix(e, "CONST:") {
+		return 0, false
+	}
+	n, err := strconv.ParseInt(e[6:], 10, 64)
+	return n, err == nil
+}
+
+// loopCollection: the value a range loop iterates over, from its header block.
+func loopCollection(b *ssa.BasicBlock) ssa.Value {
+	for _, in := range b.Instrs {
+		if nx, ok := in.(*ssa.Next); ok {
+			if r, ok := nx.Iter.(*ssa.Range); ok {
+				return r.X
+			}
+		}
+	}
+	if len(b.Instrs) > 0 {
+		if ifi, ok := b.Instrs[len(b.Instrs)-1].(*ssa.If); ok {
+			if bo, ok := ifi.Cond.(*ssa.BinOp); ok {
+				if lc, ok := bo.Y.(*ssa.Call); ok {
+					if bi, ok := lc.Call.Value.(*ssa.Builtin); ok && bi.Name() == "len" && len(lc.Call.Args) == 1 {
+						return lc.Call.Args[0]
+					}
+				}
+			}
+		}
+	}
+	return nil
 }
